@@ -339,7 +339,7 @@ class C02(core.PropertyCheck):
             if rng.random() < 0.2:
                 cfg["multi_page_tutorials"] = ["/page1"]
             if rng.random() < 0.2:
-                cfg["banners"] = [{"targets": rng.choice([["*"], [""], ["*.txt"], ["guides/*", ""], ["index.txt"], ["nothing/*"]]),
+                cfg["banners"] = [{"targets": rng.choice([["*"], [""], ["*.txt"], ["guides/*", ""], ["index.txt"], ["nothing/*"], ["."], ["./"], ["./*"], ["/"], ["**"], ["guides//"]]),
                                    "variant": rng.choice(["info", "warning"]), "value": rng.choice(["Banner *text*", "See :ref:`a`", "|sub|"])}]
             if rng.random() < 0.2:
                 cfg["manpages"] = {"mongo": {"file": rng.choice(["index.txt", "page1.txt", "nope.txt"]), "title": "T", "section": 1}}
